@@ -58,6 +58,15 @@ def _params(name, orig):
     return p
 
 
+# documented synonyms (docstring "Synonym of ..."): the same call under the other name answers bit for bit the same
+SYNONYMS = {"DCM.to_quaternion": "to_q", "DCM.to_q": "to_quaternion", "DCM.from_quaternion": "from_q", "DCM.from_q": "from_quaternion",
+            "DCM.to_axisangle": "to_axang", "DCM.to_axang": "to_axisangle", "DCM.from_axisangle": "from_axang", "DCM.from_axang": "from_axisangle",
+            "DCM.to_rpy": "to_angles", "DCM.to_angles": "to_rpy",
+            "Quaternion.from_rpy": "from_angles", "Quaternion.from_angles": "from_rpy",
+            "QuaternionArray.from_rpy": "from_angles", "QuaternionArray.from_angles": "from_rpy", "QuaternionArray.conjugate": "conj", "QuaternionArray.conj": "conjugate",
+            "frames.ecef2geodetic": "ecef2lla", "frames.ecef2lla": "ecef2geodetic",
+            "orientation.rpy2q": "cardan2q", "orientation.cardan2q": "rpy2q", "orientation.q2rpy": "q2cardan", "orientation.q2cardan": "q2rpy",
+            "AQUA.estimate": "init_q", "AQUA.init_q": "estimate"}
 _DROP = {}
 
 
@@ -284,7 +293,8 @@ def _shadow(name, orig, mode, args, kwargs):
     slots = slots[:4]
     # options: keyword arguments the callable has a default for (or takes through **kwargs) -- the call could have been made without them
     drop = _droppable(name, orig, kwargs) if (PROP != "C19" and OPTION_PROBE) else ()
-    if not slots and not drop:
+    syn = SYNONYMS.get(name) if PROP != "C19" else None
+    if not slots and not drop and not syn:
         return orig(*args, **kwargs)
     kinds = tuple(s[2] for s in slots)
     key = (name, kinds, drop)
@@ -345,6 +355,30 @@ def _shadow(name, orig, mode, args, kwargs):
                                        "before": repr(plain_before)[:500], "after": repr(plain_after)[:500]}))
             except Exception:
                 _emit("count", "option-scope-probe-raises-after-the-call")
+        if syn:
+            try:
+                rs_keep = np.random.get_state()
+                a2 = [copy.deepcopy(a) for a in p_args]
+                k2 = {k: copy.deepcopy(v) for k, v in p_kw.items()}
+                np.random.set_state(rs)
+                if mode == "fn":
+                    import importlib
+                    other = getattr(importlib.import_module(orig.__module__), syn)
+                    other = getattr(other, "__wrapped__", other)
+                    got_s = (_sig(other(*a2, **k2)), None)
+                    base_s = (_sig(ret), None)
+                else:
+                    s2 = _snap(p_self)
+                    got_s = (_sig(getattr(s2, syn)(*a2, **k2)), _sig(np.asarray(s2)) if isinstance(s2, np.ndarray) else None)
+                    base_s = (_sig(ret), _sig(np.asarray(args[0])) if isinstance(args[0], np.ndarray) else None)
+                np.random.set_state(rs_keep)
+                _emit("count", "synonym-calls-compared")
+                if not all((p_ is None and q_ is None) or (p_ is not None and q_ is not None and _same(p_, q_, True)) for p_, q_ in zip(got_s, base_s)):
+                    _emit("finding", ("%s|forms|%s|synonym:%s|documented-synonym-answers-differently" % (PROP, name, syn),
+                                      {"callable": name, "synonym": syn, "arguments": [repr(a)[:200] for a in p_args] + ["%s=%s" % (k, repr(v)[:120]) for k, v in p_kw.items()],
+                                       "answer": repr(base_s)[:500], "synonym-answer": repr(got_s)[:500]}))
+            except Exception as e_:
+                _emit("count", "synonym-call-raises")
         if not slots:
             return ret
         if time.perf_counter() - t0 > SLOW:
